@@ -3,8 +3,18 @@ package exec
 import (
 	"sort"
 
+	"github.com/ChrisTrenkamp/xsel/node"
 	"github.com/ChrisTrenkamp/xsel/store"
 )
+
+func isAttributeOrNamespace(cursor store.Cursor) bool {
+	switch cursor.Node().(type) {
+	case node.Attribute, node.Namespace:
+		return true
+	}
+
+	return false
+}
 
 func unique(s []store.Cursor) []store.Cursor {
 	if len(s) == 0 {
@@ -141,13 +151,14 @@ func selectFollowing(nodeSet NodeSet) Result {
 }
 
 func appendFollowing(cursor store.Cursor, result []store.Cursor) []store.Cursor {
-	parent := cursor.Parent()
-
-	if parent.Pos() == 0 {
+	if cursor.Pos() == 0 {
 		return result
 	}
 
-	found := false
+	parent := cursor.Parent()
+
+	// Attributes and namespaces precede all the children of their element.
+	found := isAttributeOrNamespace(cursor)
 
 	for _, i := range parent.Children() {
 		if i.Pos() == cursor.Pos() {
@@ -175,23 +186,20 @@ func selectFollowingSibling(nodeSet NodeSet) Result {
 }
 
 func appendFollowingSibling(cursor store.Cursor, result []store.Cursor) []store.Cursor {
-	parent := cursor.Parent()
-
-	if parent.Pos() == 0 {
+	if cursor.Pos() == 0 {
 		return result
 	}
 
-	children := parent.Children()
-	start := 0
+	children := cursor.Parent().Children()
 
+	// Attributes and namespaces are not among the children and have no siblings.
 	for i := range children {
 		if children[i].Pos() == cursor.Pos() {
-			start = i
-			break
+			return append(result, children[i+1:]...)
 		}
 	}
 
-	return append(result, children[start+1:]...)
+	return result
 }
 
 func selectNamespace(nodeSet NodeSet) Result {
@@ -227,12 +235,11 @@ func selectPreceding(nodeSet NodeSet) Result {
 }
 
 func appendPreceding(cursor store.Cursor, result []store.Cursor) []store.Cursor {
-	parent := cursor.Parent()
-
-	if parent.Pos() == 0 {
+	if cursor.Pos() == 0 {
 		return result
 	}
 
+	parent := cursor.Parent()
 	found := false
 	children := parent.Children()
 
@@ -262,13 +269,11 @@ func selectPrecedingSibling(nodeSet NodeSet) Result {
 }
 
 func appendPrecedingSibling(cursor store.Cursor, result []store.Cursor) []store.Cursor {
-	parent := cursor.Parent()
-
-	if parent.Pos() == 0 {
+	if cursor.Pos() == 0 {
 		return result
 	}
 
-	children := parent.Children()
+	children := cursor.Parent().Children()
 	end := 0
 
 	for i := len(children) - 1; i >= 0; i-- {
